@@ -236,7 +236,9 @@ def _ft_ops(ctx):
         dump.append("ft %d 1 16" % (mx + d))
         dump_d.append("ftd 100 %d 3 16" % (mx + d))
     # several threads really used: y > 1e7 (thread_distance is a multiple of 2310)
-    big = [(2 * THRESH + 1, 2), (2 * THRESH + 4621, 5)] if ctx.quick else \
+    # (6 * THRESH + 4621, 7): seven construction threads — thread indexes >= 4 are where an interval no longer starts
+    # near 0 relative to its length (seeded change C02-b stops the prime loop early only there); ~25 s of model time
+    big = [(2 * THRESH + 1, 2), (2 * THRESH + 4621, 5), (6 * THRESH + 4621, 7)] if ctx.quick else \
         [(2 * THRESH + 1, 2), (2 * THRESH + 4621, 5), (3 * THRESH + 2309, 3), (5 * THRESH + 17, 16), (4 * THRESH, 64)]
     for y, th in big:
         hashes.append("fthash %d %d 32" % (y, th))
